@@ -1441,6 +1441,7 @@ func runListener(r *common.Run, ops []string, class string) {
 		return
 	}
 	defer p.stop()
+	baseE, baseA := blockedIn(fnExpect), blockedIn(fnAccept) // left over from cases that stalled
 	var ln *ibb.Listener
 	listening := false
 	type acc struct {
@@ -1550,7 +1551,10 @@ func runListener(r *common.Run, ops []string, class string) {
 				obs[pendingOpen] = reply(pendingID)
 				pendingOpen = -1
 			default:
-				time.Sleep(200 * time.Microsecond) // let it reach its select
+				// no sleep: the call has reached its select when the goroutine dump says so
+				if !waitBlocked(fnAccept, baseA, waiting) {
+					r.Notes = append(r.Notes, "listener: an Accept call did not reach its wait")
+				}
 			}
 		case 'E':
 			if ln == nil {
@@ -1572,7 +1576,10 @@ func runListener(r *common.Run, ops []string, class string) {
 				break
 			}
 			expCancel, expecting = cancel, nOpen+1
-			time.Sleep(300 * time.Microsecond) // let it register
+			// no sleep: the call has registered its entry when it is blocked in its select
+			if !waitBlocked(fnExpect, baseE, 1) {
+				r.Notes = append(r.Notes, "listener: an Expect call did not reach its wait")
+			}
 		case 'X':
 			if expecting < 0 {
 				toks = toks[:len(toks)-1]
